@@ -315,7 +315,7 @@ def run_check(cid, tier, seed):
     scan_ok = sum(s.get('checked', 0) - len(s.get('violations', [])) for s in scan_results)
     n_known = sum(len(v) for v in known_hits.values())
     n_obs = len(obs) - n_known          # obligations pinned as open findings are reported separately, not counted
-    level = 'proof' if (discharged == n_obs and not errors and exit_code == 0) else 'other'
+    level = P.get('level', 'proof') if (discharged == n_obs and not errors and exit_code == 0) else 'other'
     ev = dict(
         property_id=cid, tier=tier, seed=seed, level=level,
         coverage=dict(
